@@ -24,7 +24,7 @@ from hpstatic.terms import (sym, intern, show, subterms, calls_in, NONE, num, kw
 from hpstatic.xrnorm import atom_rewrite
 from .theories import detector_decide, IFQ
 
-MUTATION_TARGETS = {'holopy/core/metadata.py': ['make_subset_data', 'flat', 'from_flat', 'update_metadata', 'copy_metadata', 'detector_points', 'data_grid'], 'holopy/scattering/imageformation.py': ['_transform_to_desired_coordinates'], 'holopy/inference/result.py': ['forward']}
+MUTATION_TARGETS = {'holopy/core/metadata.py': ['make_subset_data', 'flat', 'from_flat', 'update_metadata', 'copy_metadata', 'detector_points', 'detector_grid', 'data_grid'], 'holopy/scattering/imageformation.py': ['_transform_to_desired_coordinates'], 'holopy/inference/result.py': ['forward']}
 
 LEVEL = 'other'
 META = dict(
@@ -52,6 +52,10 @@ def run(check, prog):
     purity(check, prog)
     subset(check, prog)
     coordinates(check, prog)
+    # "values, coordinates and metadata are kept" rests on copy_metadata
+    from . import c01
+    c01.f6_copy_metadata(check, prog)
+    constructors(check, prog)
 
 
 def purity(check, prog):
@@ -289,6 +293,141 @@ def coordinates(check, prog):
         o.value[0] == 'call' and o.value[1] == ('attr', sym('a'), 'stack') and
         dict(o.value[3]).get('flat') == ('tuple', (('const', 'x'), ('const', 'y'),
                                                     ('const', 'z'))) for o in rets)
+    # ... with the right polarity: a is returned as is iff it is already flat /
+    # a point list
+    from .common import norm_cond
+    a_ = sym('a')
+    hf = intern(('call', 'hasattr', (a_, ('const', 'flat')), ()))
+    hp = intern(('call', 'hasattr', (a_, ('const', 'point')), ()))
+    same = [o for o in rets if o.value == a_]
+    stk = [o for o in rets if o.value != a_]
+    ok = ok and len(same) == 1 and len(stk) == 1 and \
+        len(norm_cond(same[0].cond)) == 1 and norm_cond(same[0].cond)[0][1] is True and \
+        norm_cond(same[0].cond)[0][0][0] == 'bool' and \
+        norm_cond(same[0].cond)[0][0][1] == 'or' and \
+        set(norm_cond(same[0].cond)[0][0][2]) == {hf, hp}
     check.require(ok, 'D3-coordinate-path', 'flat',
-                  'grids are stacked over (x, y, z); point lists pass through',
+                  'grids are stacked over (x, y, z); point lists and already '
+                  'flattened data pass through (and only those)',
                   prog.loc(q, prog.func(q)), fail_detail='flat returns %s' % sorted(vals))
+    q = MD + 'from_flat'
+    it = Interp(prog, max_depth=1)
+    res = it.analyze(q)
+    v = res.ret
+    want = intern(('ite', hf, ('call', ('attr', a_, 'unstack'), (('const', 'flat'),), ()),
+                   a_))
+    check.require(v == want, 'D3-coordinate-path', 'from_flat',
+                  'flattened data is unstacked along `flat`; anything else passes '
+                  'through', prog.loc(q, prog.func(q)),
+                  fail_detail='from_flat returns %s' % show(v)[:120])
+    # make_subset_data: what is returned
+    q = MD + 'make_subset_data'
+    fd = prog.func(q)
+    it = Interp(prog, max_depth=1, opaque=[MD + 'copy_metadata', MD + 'flat'])
+    res = it.analyze(q)
+    rs = sym(fd.args.args[2].arg)
+    pair = [o for o in res.returns if o.value[0] == 'tuple']
+    single = [o for o in res.returns if o.value[0] != 'tuple' and
+              o.value != sym(fd.args.args[0].arg)]
+    ok = len(pair) == 1 and len(single) == 1 and \
+        (rs, True) in norm_cond(pair[0].cond) and \
+        (rs, False) in norm_cond(single[0].cond) and \
+        len(pair[0].value[1]) == 2 and pair[0].value[1][0] == single[0].value and \
+        pair[0].value[1][1][0] == 'call' and \
+        pair[0].value[1][1][1] == 'numpy.random.choice'
+    check.require(ok, 'D2-selection', 'make_subset_data return value',
+                  'the subset, plus the drawn indices iff return_selection',
+                  prog.loc(q, fd))
+
+
+def constructors(check, prog):
+    """detector_points / detector_grid place each coordinate where the caller
+    put it (the locations a calculation is asked for)."""
+    from .common import norm_cond
+    q = MD + 'detector_points'
+    fd = prog.func(q)
+    loc = prog.loc(q, fd)
+    P = {a.arg: sym(a.arg) for a in fd.args.args}
+    it = Interp(prog, max_depth=1, opaque=['holopy.core.utils.updated',
+                                           'holopy.core.utils.repeat_sing_dims'])
+    res = it.analyze(q)
+    names = ('x', 'y', 'z', 'r', 'theta', 'phi')
+    upd0 = intern(('call', 'holopy.core.utils.updated', (
+        P['coords'], ('dict', tuple((('const', n), P[n]) for n in names))), ()))
+
+    def has(k):
+        return intern(('cmp', 'in', ('const', k), upd0))
+    xy = intern(('bool', 'and', (has('x'), has('y'))))
+    tp = intern(('bool', 'and', (has('theta'), has('phi'))))
+
+    def unset(k):
+        return intern(('cmp', 'is', ('call', ('attr', upd0, 'get'), (('const', k),), ()),
+                       NONE))
+    st = {e['key'][1]: e for e in it.effects if e['kind'] == 'setitem' and
+          e['key'][0] == 'const'}
+    ok = set(st) == {'z', 'r'} and st['z']['value'] == num(0) and \
+        st['r']['value'] == ('extref', 'numpy.inf') and \
+        norm_cond(st['z']['cond']) == [(xy, True), (unset('z'), True)] and \
+        norm_cond(st['r']['cond']) == [(xy, False), (tp, True), (unset('r'), True)]
+    check.require(ok, 'D3-point-detectors', 'detector_points defaults',
+                  'Cartesian points without z get z = 0, angular points without r get '
+                  'r = inf -- the named arguments are merged into `coords` first', loc,
+                  fail_detail='defaults: %s' % {
+                      k: (show(e['value']), [(show(t)[:50], p) for t, p in e['cond']])
+                      for k, e in st.items()})
+    ok = len(res.raises) == 1 and norm_cond(res.raises[0].cond) == [(xy, False),
+                                                                     (tp, False)]
+    check.require(ok, 'D3-point-detectors', 'detector_points coordinate system',
+                  'CoordSysError iff neither (x, y) nor (theta, phi) is given', loc)
+    v = res.ret
+    ok = v[0] == 'call' and v[1] == 'xarray.DataArray' and \
+        kw(v, 'dims') == ('list', (('const', 'point'),))
+    if ok:
+        co = kw(v, 'coords')
+        ok = co is not None and co[0] == 'call' and co[1] == 'holopy.core.utils.updated' \
+            and len(co[2]) == 2
+        if ok:
+            rep, comp = co[2]
+            ok = rep[0] == 'call' and rep[1] == 'holopy.core.utils.repeat_sing_dims' and \
+                comp[0] == 'comp' and comp[1] == 'dict' and len(comp[3]) == 1
+            if ok:
+                keys = comp[3][0][1]
+                e = comp[3][0][0]
+                ok = keys == ('ite', xy, ('list', tuple(('const', k) for k in 'xyz')),
+                              ('list', (('const', 'r'), ('const', 'theta'),
+                                        ('const', 'phi')))) and \
+                    rep[2][1] == keys and \
+                    comp[2] == ('tuple', (e, ('tuple', (('const', 'point'),
+                                                        ('idx', rep, e)))))
+    check.require(ok, 'D3-point-detectors', 'detector_points result',
+                  'every coordinate of the chosen system is laid along the single '
+                  'dimension `point` (values broadcast to a common length)', loc,
+                  fail_detail='returns %s' % show(v)[:200])
+    q = MD + 'detector_grid'
+    fd = prog.func(q)
+    it = Interp(prog, max_depth=1, opaque=[MD + 'data_grid'])
+    res = it.analyze(q)
+    v = res.ret
+    G = {a.arg: sym(a.arg) for a in fd.args.args}
+    ok = v[0] == 'call' and v[1] == MD + 'data_grid'
+    if ok:
+        fdd = prog.func(MD + 'data_grid')
+        nm = [a.arg for a in fdd.args.args]
+        b = dict(zip(nm, v[2]))
+        b.update(dict(v[3]))
+        ok = b.get('spacing') == G['spacing'] and b.get('name') == G['name'] and \
+            b.get('extra_dims') == G['extra_dims'] and b.get('arr') is not None and \
+            b['arr'][0] == 'call' and b['arr'][1] == 'numpy.zeros' and \
+            set(b) == {'arr', 'spacing', 'name', 'extra_dims'}
+        if ok:
+            shp = b['arr'][2][0]
+            base = intern(('ite', ('call', 'numpy.isscalar', (G['shape'],), ()),
+                           ('list', (G['shape'], G['shape'])),
+                           ('call', 'list', (G['shape'],), ())))
+            ok = shp[0] == 'ite' and shp[3] == base and shp[2][0] == 'loop' and \
+                shp[2][3] == base
+    check.require(ok, 'D3-grid-detectors', 'detector_grid',
+                  'zeros of shape (n, n) for a scalar / the given shape, extended by '
+                  'the lengths of the extra dimensions, handed to data_grid with the '
+                  'spacing, name and extra dimensions in their slots', prog.loc(q, fd),
+                  fail_detail='returns %s' % show(v)[:200])
